@@ -108,8 +108,8 @@ def warm():
 # --------------------------------------------------------------------------- one case
 
 
-class WallTimeout(Exception):
-    pass
+class WallTimeout(BaseException):
+    """real-time watchdog of a case: never a verdict (re-raised by every catch-all)"""
 
 
 def _alarm(signum, frame):
